@@ -136,15 +136,27 @@ theorem runOk_associatePT_settled {s : St} (lrv : Nat) (tmpl : List Desired) (k 
     have hnm : ¬ (rkey e).name = "" := he.nameNe
     have hf' : findObj s.objs (rkey e).kind (rkey e).name = some o := hf
     simp only [List.map_cons, associatePT, hnm, if_false]
-    rw [runOk_call, exec_getObj_some hf']
-    simp only []
     have ha' : ¬ o.annot = "" := by rw [ha]; exact he.rnameNe
     have ht : (tmpl.any fun d => decide (d.rname = o.annot)) = true := by
       rw [List.any_eq_true]
       exact ⟨e.d, he.mem, by simp [ha]⟩
-    simp only [ha', if_false, ht, if_true]
-    rw [ih _ (fun x hx => h x (List.mem_cons_of_mem _ hx)), ha]
-    rfl
+    have hrest : runOk (if o.annot = "" then onError lrv
+        else if (tmpl.any (·.rname = o.annot)) = true then
+          associatePT lrv tmpl (es.map rkey) (assocInsert acc o.annot (rkey e)) k
+        else if o.ctrl = .other then onError lrv
+        else wcall lrv (.gcUpdate o.kind o.name) fun _ => wcall lrv (.delete o.kind o.name) fun _ =>
+          associatePT lrv tmpl (es.map rkey) acc k) s = runOk (k (assocOf (e :: es) acc)) s := by
+      simp only [ha', if_false, ht, if_true]
+      rw [ih _ (fun x hx => h x (List.mem_cons_of_mem _ hx)), ha]
+      rfl
+    -- in the cache, or missing from it and found by the live read: the same object either way
+    by_cases hmiss : (⟨(rkey e).kind, (rkey e).name⟩ : Ref) ∈ s.miss
+    · rw [runOk_call, exec_getCached_miss hmiss]
+      simp only []
+      rw [runOk_call, exec_getObj_some hf']
+      exact hrest
+    · rw [runOk_call, exec_getCached_some hf' hmiss]
+      exact hrest
 
 theorem assocOf_lookup_notin (t : String) : ∀ (es : List Rendered) (acc : Assoc),
     (∀ e ∈ es, e.d.rname ≠ t) → assocLookup (assocOf es acc) t = assocLookup acc t := by
@@ -220,31 +232,39 @@ theorem exec_mergePatch_settled {s : St} {tmpl : List Desired} (hnd : (s.objs.ma
   rw [this]
 
 theorem runOk_applyPT_settled {s : St} {tmpl : List Desired} (hnd : (s.objs.map key).Nodup) (lrv : Nat) (k : Bool → P) :
-    ∀ (l : List Rendered) (b : Bool), (∀ e ∈ l, EntryPT s tmpl e) → runOk (applyPT lrv l b k) s = runOk (k b) s := by
+    ∀ (l : List Rendered) (b : Bool), (∀ e ∈ l, EntryPT s tmpl e) → (∀ e ∈ l, rkey e ∉ s.miss) →
+      runOk (applyPT lrv l b k) s = runOk (k b) s := by
   intro l
   induction l with
-  | nil => intro b _; rfl
+  | nil => intro b _ _; rfl
   | cons e l ih =>
-    intro b hl
+    intro b hl hcached
+    have hmiss : (⟨e.d.kind, e.name⟩ : Ref) ∉ s.miss := hcached e (List.mem_cons_self ..)
     have he := hl e (List.mem_cons_self ..)
     obtain ⟨o, hf, _, hc, _⟩ := he.find
     have hne : ¬ o.ctrl = .other := by rw [hc]; decide
     simp only [applyPT, he.rendered, Bool.not_true, Bool.false_eq_true, if_false]
-    rw [runOk_call, exec_getObj_some hf]
+    rw [runOk_call, exec_getCached_some hf hmiss]
     simp only [hne, if_false, wcall]
     rw [runOk_call, exec_mergePatch_settled hnd he]
     simp only []
-    exact ih b (fun x hx => hl x (List.mem_cons_of_mem _ hx))
+    exact ih b (fun x hx => hl x (List.mem_cons_of_mem _ hx)) (fun x hx => hcached x (List.mem_cons_of_mem _ hx))
 
 /-- **Quiescence (P&T composer).** From a settled store a fault-free reconcile with the
 patch-and-transform composer returns `success` and leaves the store exactly as it was
 (references, objects, the XR's resourceVersion), for any list `fresh` of names the generator
 could propose: none is consumed. `hv`: the stored references already carry the API version the
-composition emits (rewriting them with another version is a real change).
+composition emits (rewriting them with another version is a real change). `hcached`: every
+referenced composed resource is in the informer cache. This hypothesis is needed for the P&T
+composer (not for the function composer): its `Apply` reads through the cache only, so for a
+resource that exists but is missing from the cache it takes the Create branch, the API server
+answers AlreadyExists and the reconcile ends in the error epilogue (`handled`, Synced=False)
+instead of `success` — see `Xp.C01.quiescent_pt_needs_cache_witness` in Xp/Props/C01.lean.
 (Declared as `Xp.C01.QuietPT.quiescent_pt`; `Xp.C01.quiescent_pt` in Xp/Props/C01.lean restates it
 over `run sem Plan.allOk 0`.) -/
 theorem QuietPT.quiescent_pt {s : St} {tmpl : List Desired} {names : List String} (h : SettledPT s tmpl names)
-    (fresh : List String) (ver : String) (hv : s.refs = [] ∨ ver = s.refsVer) :
+    (fresh : List String) (ver : String) (hv : s.refs = [] ∨ ver = s.refsVer)
+    (hcached : ∀ r ∈ s.refs, r ∉ s.miss) :
     runOk (reconcile (.pt tmpl fresh ver)) s = (s, some .success) := by
   have hent : ∀ e ∈ renderedOf tmpl names, EntryPT s tmpl e := h.entry
   have hrefs : s.refs = (renderedOf tmpl names).map rkey := by rw [renderedOf_map_rkey]; exact h.refs
@@ -265,7 +285,8 @@ theorem QuietPT.quiescent_pt {s : St} {tmpl : List Desired} {names : List String
   simp only [List.reverse_nil, List.nil_append, wcall, ← hrefs]
   rw [runOk_call, exec_updateXR_settled hv]
   simp only []
-  rw [runOk_applyPT_settled h.nodupObjs _ _ _ true hent]
+  rw [runOk_applyPT_settled h.nodupObjs _ _ _ true hent
+    (fun e he => hcached _ (by rw [hrefs]; exact List.mem_map.mpr ⟨e, he, rfl⟩))]
   rw [runOk_call, exec_getXR]
   simp only []
   rw [runOk_call, exec_patchXR]
